@@ -162,6 +162,7 @@ pub static DRIVERS: &[Driver] = &[
     Driver { name: "sparsebits", run: crate::sparsebits::sparsebits_driver },
     Driver { name: "psblend", run: crate::capsweep::psblend_driver },
     Driver { name: "fdselect", run: crate::capsweep::fdselect_driver },
+    Driver { name: "bytecode", run: crate::drivers4::bytecode_driver },
 ];
 
 pub fn find(name: &str) -> Option<usize> {
